@@ -174,6 +174,9 @@ func (ex *Exec) execInstr(b *ssa.BasicBlock, st *State, in ssa.Instruction) {
 	case *ssa.Go:
 		vc.note("go statement dropped at %s", ex.pos(in.Pos()))
 	case *ssa.RunDefers:
+		if ex.inlineDepth > 0 {
+			break // a helper executed in place has no defers of its own; the pending ones belong to the caller
+		}
 		for i := len(st.defers) - 1; i >= 0; i-- {
 			d := st.defers[i]
 			if mc, ok := d.call.Common().Value.(*ssa.MakeClosure); ok && isRecoverGuard(mc.Fn.(*ssa.Function)) {
@@ -191,7 +194,7 @@ func (ex *Exec) execInstr(b *ssa.BasicBlock, st *State, in ssa.Instruction) {
 		for _, r := range in.Results {
 			rs = append(rs, ex.val(st, r))
 		}
-		if ex.con != nil {
+		if ex.con != nil && ex.inlineDepth == 0 {
 			for i, cl := range ex.con.AtReturn {
 				env := ex.specEnv(st, ex.entry, false)
 				env.bindResults(ex.fn, rs)
